@@ -220,6 +220,9 @@ func parseDirectives(doc *ast.CommentGroup, tier string) *Config {
 			cfg.Outside = append(cfg.Outside, rest)
 		case "nonative":
 			cfg.NoNative = true
+		case "noyield":
+			cfg.NoYield = append(cfg.NoYield, strings.Fields(rest)...)
+			cfg.Bounds["no pre-emption at"] = rest
 		}
 	}
 	return cfg
